@@ -35,7 +35,7 @@ RULE = ('exhaustive histories up to length 4 (thorough: 5) over the alphabet {in
         'prefix followed by a syntax error: raises ParsingException, nothing is accepted)} + {mut k m : k in {0,1}, '
         'm in a fixed list of 10 mutations} + 3 clone operations, and of length 5 (thorough: 6) over a reduced alphabet of 5 mutations, on a '
         'fixed two-class scenario, only histories with a build whose mutations target an already built metamodel; '
-        'plus random histories of length <= 12 (builds with their own IntegerGenerator or with none; some with a row that cannot be populated, so that every later build is rejected) over '
+        'plus random histories of length <= 12 (builds with their own IntegerGenerator or with none; some with a row that cannot be populated, so that every later build is rejected; some whose builds are rejected until a later input brings the missing CREATE TABLE) over '
         'generated schemas and populations (some with a class whose rows are read before its CREATE TABLE, so that earlier builds infer it) with randomly chosen mutations. Non-trivial = at least two metamodels were '
         'built and a mutation changed one of them; distinct = distinct (chunks, history)')
 EXHAUSTIVE = {'quick': True, 'thorough': True}
@@ -191,6 +191,15 @@ def _random_case(rng, maxlen):
         c0 = classes[0]
         chunks.insert(rng.randint(1, len(chunks)),
                       [{'t': 'insert', 'kind': c0['kind'], 'names': [c0['attrs'][0][0]], 'vals': [['i', 1], ['i', 2]], 'lex': ['1', '2']}])
+    elif r < 0.62 and assocs:
+        # ... or a build that is rejected and REPAIRED by a later input: the CREATE TABLE of a class that an association
+        # names arrives last; every build before that raises (unknown class), the builds after it must succeed
+        a0 = rng.choice(assocs)
+        kind0 = rng.choice([a0['sk'], a0['tk']])
+        moved = [s_ for s_ in chunks[0] if s_['t'] == 'cls' and s_['kind'] == kind0]
+        if moved:
+            chunks[0] = [s_ for s_ in chunks[0] if not (s_['t'] == 'cls' and s_['kind'] == kind0)]
+            chunks.append(moved)
     refs = {}
     for a in assocs:
         refs.setdefault(a['sk'], set()).update(a['skeys'])
